@@ -16,7 +16,7 @@ META = {
     'assumptions': ['only finite constant values are judged (JSON cannot carry NaN / infinity)'],
     'floors': {'furigana_scripts': 20, 'scripts_offsets_matched': 200, 'labels_checked': 100, 'locals_checked': 100, 'consts_checked': 100, 'formats': 4},
 }
-SIZES = {'quick': 900, 'thorough': 30000}
+SIZES = {'quick': 2700, 'thorough': 30000}
 
 def binary_scripts(data, tool, game, msg_mode=None):
     """list of (key, instrs, length) in the order debug info indexes them"""
